@@ -6,6 +6,7 @@ import Psa.Model.Claims
 import Psa.Model.Setters
 import Psa.Driver.ClaimsIO
 import Psa.Driver.ErrIO
+import Psa.Driver.HistIO
 namespace Psa.Driver
 open Psa
 
@@ -61,6 +62,7 @@ def runLine (l : String) : String :=
       | "lcname" => opLcName args
       | "obs" => opObs args
       | "filter" => opFilter args
+      | "hist" => opHist args
       | _ => "bad-op"
     caseNo ++ " " ++ r
   | _ => "bad-line"
